@@ -63,7 +63,6 @@ type poolModel struct {
 	submitted map[txid]bool        // ever handed to ReceiveTx
 	resub     map[txid]bool        // accepted by ReceiveTx after a block that contained it
 	ethOf     map[txid]ethID       // decoding of eth ids
-	flushed   bool                 // last mutating op was Flush
 }
 
 func newPoolModel(nAcct, pendingLimit, waitingLimit int) *poolModel {
@@ -91,7 +90,6 @@ func (m *poolModel) receiveEth(e ethID, accepted bool) string {
 	id := e.id()
 	m.ethOf[id] = e
 	m.submitted[id] = true
-	m.flushed = false
 	sl := m.slots[e.Acct][e.Nonce]
 	stale := e.Nonce < m.nonce[e.Acct]
 	// the pool may be at its waiting capacity: the documented replacement rule
@@ -131,7 +129,6 @@ func (m *poolModel) receiveEth(e ethID, accepted bool) string {
 
 func (m *poolModel) receiveExt(id txid, accepted bool) string {
 	m.submitted[id] = true
-	m.flushed = false
 	if m.extMust[id] {
 		if accepted {
 			return "exact-duplicate-accepted"
@@ -168,13 +165,11 @@ func (m *poolModel) flush() {
 	}
 	m.ext = nil
 	m.extMust = map[txid]bool{}
-	m.flushed = true
 }
 
 // commit is told the content of a committed block and the state nonces the
 // application reports afterwards.
 func (m *poolModel) commit(block []txid, nonces []uint64) {
-	m.flushed = false
 	for _, id := range block {
 		m.committed[id] = true
 		m.resub[id] = false
@@ -296,4 +291,32 @@ func keys(m map[txid]bool) []string {
 	}
 	sort.Strings(o)
 	return o
+}
+
+// key is the model's own memory in canonical form.  It is part of the state
+// key: two histories may be merged only if the oracle will also judge their
+// futures alike.
+func (m *poolModel) key() string {
+	var parts []string
+	for a := range m.slots {
+		for n, s := range m.slots[a] {
+			parts = append(parts, fmt.Sprintf("%c%d%v/%v", acctLetter(a), n, keys(s.cands), s.must))
+		}
+	}
+	sort.Strings(parts)
+	var em []string
+	for id, v := range m.extMust {
+		if v {
+			em = append(em, string(id))
+		}
+	}
+	sort.Strings(em)
+	var rs []string
+	for id, v := range m.resub {
+		if v {
+			rs = append(rs, string(id))
+		}
+	}
+	sort.Strings(rs)
+	return fmt.Sprintf("slots%v ext%v must%v committed%v resub%v", parts, m.ext, em, keys(m.committed), rs)
 }
